@@ -28,13 +28,21 @@ def run(ctx):
 
     # ---------------------------------------------------------------- C03.2
     sites = emitters(P)
-    ctx.floor('C03.2', 'emitters (EventLog::append call sites)', len(sites), 16)
+    ctx.floor('C03.2', 'emitters (EventLog::append call sites)', len(sites), 15)
     for s in sites:
         f = s.fn
         ev = f.root_local(s.args[1], through_calls=(r'::deref$', r'::as_ref$'))
         if ev is None:
             raise CheckError('C03.2: appended event of %s is not a plain local (unrecognised idiom)' % f.path)
-        sibs = f.calls(BEST_EFFORT) + f.calls(SEND, full=r'Sender::<rip_kernel::Event>::send') + f.calls(PUSH, full=r'Vec::<rip_kernel::Event>::push')
+        allsibs = f.calls(BEST_EFFORT) + f.calls(SEND, full=r'Sender::<rip_kernel::Event>::send') + f.calls(PUSH, full=r'Vec::<rip_kernel::Event>::push')
+        appends_here = [x for x in sites if x.fn is f]
+        if len(appends_here) > 1:
+            # several frames are emitted by one function: a sibling belongs to the append whose event it carries;
+            # a sibling that carries none of the appended events is reported once, with the first append
+            others = {f.root_local(x.args[1], through_calls=(r'::deref$', r'::as_ref$')) for x in appends_here if x is not s}
+            sibs = [c for c in allsibs if ev in reads_locals(f, c.args[1]) or (s is appends_here[0] and not (reads_locals(f, c.args[1]) & others))]
+        else:
+            sibs = allsibs
         for c in sibs:
             src = sources(f, c.args[1])
             roots = reads_locals(f, c.args[1])
